@@ -34,3 +34,4 @@ run fbb4e42 C03 replays/regress/C03-D18-refused-interval-accuracy.json
 run 4a08f54 C03 replays/regress/C03-D17-huge-values-hang.json
 run 4a08f54 C02 replays/regress/C02-D17-huge-values-hang.json
 run 19de2f0 C13 replays/regress/C13-D16-painter-fit-escapes.json
+run ca8e8fb C05 replays/regress/C05-D19-image-one-ulp-outside.json
